@@ -42,7 +42,8 @@ CONTEXTS = ['cmd_arg', 'cmd_env', 'cmd_str_envref', 'step_str_envref', 'cmd_word
             'driver_nested', 'compile_opt', 'compile_opt_str', 'define_value',
             'link_opt', 'lib_opt', 'link_opt_str', 'include_path', 'desc_step', 'symlink_src', 'symlink_gen',
             'copy_src_desc']
-SCRIPT_CONTEXTS = ['global_opt', 'global_opt_str', 'global_link_opt', 'env_cflags',
+SCRIPT_CONTEXTS = ['global_opt', 'global_opt_str', 'global_link_opt', 'global_link_opt_static',
+                   'env_cflags',
                    'env_cppflags', 'env_ldflags', 'env_ldlibs']
 
 SHELL_BUILTIN_WORDS = {':', '.', '[', '!', '{', '}'}
@@ -88,10 +89,11 @@ def admissible(ctx, s):
             return False
     if ctx in ('compile_opt', 'compile_opt_str', 'link_opt', 'link_opt_str',
                'lib_opt_str', 'global_opt', 'global_opt_str', 'global_link_opt',
-               'env_cflags', 'env_cppflags', 'env_ldflags', 'env_ldlibs'):
+               'global_link_opt_static', 'env_cflags', 'env_cppflags', 'env_ldflags', 'env_ldlibs'):
         # An empty word is a legitimate element of a LIST of options (['--param', '']); in
         # the string forms it is kept out (see above: not every sh-splitter can carry it).
-        if s == '' and ctx not in ('compile_opt', 'link_opt', 'global_opt', 'global_link_opt'):
+        if s == '' and ctx not in ('compile_opt', 'link_opt', 'global_opt', 'global_link_opt',
+                                   'global_link_opt_static'):
             return False
     return True
 
@@ -163,6 +165,10 @@ def render_script(slots, script_slots=()):
         elif ctx == 'global_link_opt':
             L.append("global_link_options([%s])" % _r(s))
             exp[i] = {'kind': 'script-link', 'opts': [s]}
+        elif ctx == 'global_link_opt_static':
+            # options for the OTHER link mode: the archiver gets them, the linker does not
+            L.append("global_link_options([%s], mode='static')" % _r(s))
+            exp[i] = {'kind': 'script-ar', 'opts': [s]}
         elif ctx in ('env_cflags', 'env_cppflags', 'env_ldflags', 'env_ldlibs'):
             var = {'env_cflags': 'CFLAGS', 'env_cppflags': 'CPPFLAGS',
                    'env_ldflags': 'LDFLAGS', 'env_ldlibs': 'LDLIBS'}[ctx]
@@ -345,7 +351,9 @@ def render_script(slots, script_slots=()):
         head.append("shared_obj = object_file('objS', file='s.c')")
     if script_slots:
         head.append("tS = executable('exS', files=[shared_obj])")
+        head.append("lS = static_library('libS', files=[object_file('obj0', file='s.c')])")
         defaults.append('tS')
+        defaults.append('lS')
     text = '\n'.join(L[:1] + [l for l in L[1:] if l.startswith('global_')] + head +
                      [l for l in L[1:] if not l.startswith('global_')]) + '\n'
     if cmd_targets:
@@ -439,7 +447,8 @@ def templates(backend):
         bld = os.path.join(root, 'bld')
         proj.write_tree(src, {
             'build.bfg': "shared_obj = object_file('objS', file='s.c')\n"
-                         "executable('exS', files=[shared_obj])\n",
+                         "executable('exS', files=[shared_obj])\n"
+                         "static_library('libS', files=[object_file('obj0', file='s.c')])\n",
             's.c': 'int main(void){return 0;}\n'})
         log = os.path.join(root, 'log')
         env = core.base_env(proj.stub_toolchain_env(log))
@@ -454,12 +463,13 @@ def templates(backend):
             a = r['argv']
             base = os.path.basename(r['name'])
             if base == 'vcc' and '-c' in a:
-                t['compile'] = a
+                if 'obj0.o' not in a:      # (the archive's own member)
+                    t['compile'] = a
             elif base == 'vcc':
                 t['link'] = a
             elif base == 'var':
                 t['ar'] = a
-        if set(t) != {'compile', 'link'}:
+        if set(t) != {'compile', 'link', 'ar'}:
             raise RuntimeError('template incomplete: %r' % t)
         t = {k: [norm_names(x, root) for x in v] for k, v in t.items()}
         _templates[backend] = t
@@ -507,6 +517,9 @@ def judge(backend, slots, script_slots, out, exp, root_hint=None):
                 by_mark.setdefault(a, []).append(r)
         for o in proj.step_outputs(r):
             by_out.setdefault(os.path.basename(o), []).append(r)
+    # (the archiver's options come before the archive's name: find its run by that name)
+    by_out['liblibS.a'] = [r for r in recs if os.path.basename(r['name']) == 'var' and
+                           'liblibS.a' in r['argv'][1:]]
     tpl = None
 
     def need_tpl():
@@ -538,9 +551,11 @@ def judge(backend, slots, script_slots, out, exp, root_hint=None):
 
     script_opts_c = []
     script_opts_l = []
+    script_opts_a = []
     for sl in script_slots:
         e = exp[sl['id']]
-        (script_opts_c if e['kind'] == 'script-compile' else script_opts_l).extend(e['opts'])
+        {'script-compile': script_opts_c, 'script-link': script_opts_l,
+         'script-ar': script_opts_a}[e['kind']].extend(e['opts'])
 
     for sl in slots:
         i = sl['id']
@@ -636,15 +651,25 @@ def judge(backend, slots, script_slots, out, exp, root_hint=None):
     for sl in script_slots:
         i = sl['id']
         e = exp[i]
-        kind = 'compile' if e['kind'] == 'script-compile' else 'link'
-        outn = 'objS.o' if kind == 'compile' else 'exS'
-        rs = by_out.get(outn, [])
+        kind = {'script-compile': 'compile', 'script-link': 'link', 'script-ar': 'ar'}[e['kind']]
+        outs = {'compile': 'objS.o', 'link': 'exS', 'ar': 'liblibS.a'}
+        allo = {'compile': script_opts_c, 'link': script_opts_l, 'ar': script_opts_a}
+        rs = by_out.get(outs[kind], [])
         if len(rs) != 1:
             verdict[i] = ('not-started' if not rs else 'started-%d-times' % len(rs),
                           [r['argv'] for r in rs])
             continue
-        allopts = script_opts_c if kind == 'compile' else script_opts_l
-        v = check_step(kind, rs[0], allopts)
+        v = check_step(kind, rs[0], allo[kind])
+        if v is None and kind != 'compile':
+            # ... and only the steps of that link mode: the other mode's step of the same
+            # project runs with its own options and nothing of this one's
+            other = 'ar' if kind == 'link' else 'link'
+            ro = by_out.get(outs[other], [])
+            if len(ro) == 1:
+                vo = check_step(other, ro[0], allo[other])
+                if vo is not None and vo[0] == 'extra-or-reordered-arguments' and \
+                   any(o in ro[0]['argv'] for o in e['opts'] if o not in allo[other]):
+                    v = ('option-reached-a-step-of-the-other-link-mode', vo[1])
         verdict[i] = v
     return verdict
 
